@@ -153,14 +153,32 @@ func cmdCheck(args []string) int {
 	var orphans []string
 	var engineErrors []string
 	funcsUnder := 0
-	for _, pf := range ps.Functions {
+	// lemma procedures / pure lemmas used by the listed functions belong to the property as well
+	todo := append([]PropFunc(nil), ps.Functions...)
+	listed := map[string]bool{}
+	for _, pf := range todo {
+		listed[pf.F] = true
+	}
+	for qi := 0; qi < len(todo); qi++ {
+		pf := todo[qi]
 		fi := prog.Funcs[pf.F]
 		ct := prog.Contracts[pf.F]
-		if fi == nil || ct == nil {
+		if ct == nil || (fi == nil && !ct.Pure) {
 			orphans = append(orphans, pf.F)
 			continue
 		}
-		fr := verifyFunc(prog, fi, ct, opts)
+		var fr *FuncResult
+		if ct.Pure {
+			fr = verifyPureLemma(prog, ct, opts)
+		} else {
+			fr = verifyFunc(prog, fi, ct, opts)
+		}
+		for _, l := range fr.UsedLemmas {
+			if !listed[l] {
+				listed[l] = true
+				todo = append(todo, PropFunc{F: l})
+			}
+		}
 		results = append(results, fr)
 		if fr.Trusted {
 			continue
